@@ -230,6 +230,10 @@ Judge_sequential_unroll(e) ==
       wantIn  == UNION {{MapOf(e, c.names[i])[t] : t \in 1..e.n} : i \in primIn}
                  \cup {MapOf(e, Pfx(b, e.q))[1] : b \in {x \in insts : InitOf(e, x) = "free"}}
   IN Machinery(c) \cup Machinery(uc)
+     \cup (IF c.n * e.n <= 24 /\ WellFormedRec(c) /\ WellFormedRec(uc)
+              /\ ToNamed(uc) # SeqUnrollModel(ToNamed(c), e.n, e.d, e.q, Range(e.ignore), e.add_flop_outputs,
+                                               [b \in insts |-> InitOf(e, b)], e.remove_unloaded)
+           THEN {"DRIFT:sequential_unroll_differs_from_as_built_model"} ELSE {})
      \cup {"primary_output_dropped:" \o c.names[i] : i \in {j \in primOut : ~HasMap(e, c.names[j])}}
      \cup (IF ~mapOK THEN {"io_map_incomplete"} ELSE
            (IF OutputNames(uc) = wantOut THEN {} ELSE {"outputs_of_unrolled_circuit"})
@@ -265,6 +269,9 @@ Judge_sensitization_transform(e) ==
       n == Idx(c, e.node)
       E == IF e.e_given THEN {Idx(c, x) : x \in Range(e.E)} ELSE Outputs(c)
   IN Machinery(c) \cup Machinery(m)
+     \cup (IF c.n <= 8 /\ WellFormedRec(c) /\ WellFormedRec(m)
+              /\ ToNamed(m) # SensModel(ToNamed(c), e.node, IF e.e_given THEN Range(e.E) ELSE {})
+           THEN {"DRIFT:sensitization_transform_differs_from_as_built_model"} ELSE {})
      \cup (IF OutputNames(m) = {"sat"} THEN {} ELSE {"outputs_are_not_sat"})
      \cup (IF InputNames(m) \subseteq InputNames(c) THEN {} ELSE {"inputs_not_from_circuit"})
      \cup (IF ~(c.acyc /\ m.acyc) \/ NFree(m) > MaxBits \/ ~HasName(m, "sat") \/ FreeNames(m) # InputNames(m)
